@@ -2,7 +2,9 @@
 EXTENDS SignVar, Json
 CONSTANT Tier
 VARIABLES cfg, done
-Names == IF Tier = "q" THEN {"PK", "db", "A", "Boot0001"} ELSE {"PK", "KEK", "db", "dbx", "A", "Boot0001", "LoaderEntrySelected", "N64"}
+(* names are arbitrary strings: with dashes, dots, spaces, a trailing dash, a GUID-like tail - every character is part of the name that is signed *)
+Names == IF Tier = "q" THEN {"PK", "db", "A", "Boot0001", "my-var", "fwupd-ddc0ee61-e7f0-4e7d-acc5-c070a398838e-0", "trailing-", "a.b c"}
+         ELSE {"PK", "KEK", "db", "dbx", "A", "Boot0001", "LoaderEntrySelected", "N64", "my-var", "fwupd-ddc0ee61-e7f0-4e7d-acc5-c070a398838e-0", "trailing-", "-leading", "a.b c", "dbx-", "db_1"}
 Guids == IF Tier = "q" THEN {"global", "lead0"} ELSE {"global", "sec", "lead0", "custom"}
 Attrs == {39, 103, 7}      \* 0x27 NV|BS|RT|AT, 0x67 with APPEND_WRITE, 0x07
 Payloads == IF Tier = "q" THEN {"empty", "d3", "dc"} ELSE {"empty", "d1", "d3", "dc", "raw1"}
